@@ -37,7 +37,7 @@ func init() {
 			if m.Cover["types"] < 146 {
 				r = append(r, fmt.Sprintf("only %d resource-type instances walked", m.Cover["types"]))
 			}
-			for _, k := range []string{"path-compared", "indexed-compared", "invalid-name", "absent-name", "wrong-root", "choice-step", "contained-step", "typed-reference", "primitive-value", "temporal-value"} {
+			for _, k := range []string{"path-compared", "indexed-compared", "filtered-compared", "value-of-temporal", "invalid-name", "absent-name", "wrong-root", "choice-step", "contained-step", "typed-reference", "primitive-value", "temporal-value"} {
 				if m.Cover[k] == 0 {
 					r = append(r, "never observed: "+k)
 				}
@@ -288,6 +288,81 @@ func c02ComparePath(env *core.Env, tn string, in []fhir.Resource, tree *model.No
 		ri := fx.Eval(env, isrc, in, nil, nil)
 		env.Cover("indexed-compared")
 		c02Judge(env, tn, isrc, tree, names, want, ri)
+	}
+	// subsetting / filter steps of the walker's sub-language placed after a random prefix
+	for k := 0; k < 2; k++ {
+		cut := 1 + rng.Intn(len(names))
+		pre := namesToSteps(names[:cut])
+		cur := model.Walk([]*model.Node{tree}, pre)
+		if len(cur) == 0 {
+			continue
+		}
+		var extra model.Step
+		switch rng.Intn(7) {
+		case 0:
+			extra = model.Step{Kind: "first"}
+		case 1:
+			extra = model.Step{Kind: "last"}
+		case 2:
+			extra = model.Step{Kind: "tail"}
+		case 3:
+			extra = model.Step{Kind: "skip", N: rng.Intn(len(cur)+2) - 1}
+		case 4:
+			extra = model.Step{Kind: "take", N: rng.Intn(len(cur)+2) - 1}
+		case 5:
+			// where(field.exists()) on a child present in some item
+			if cur[0].IsPrim || cur[0].Synth != nil || !sameTypes(cur) {
+				continue
+			}
+			kn := cur[rng.Intn(len(cur))].KidNames()
+			if len(kn) == 0 {
+				continue
+			}
+			f := kn[rng.Intn(len(kn))]
+			if lexicallyOdd(f) {
+				continue
+			}
+			extra = model.Step{Kind: "whereExists", Field: f}
+		default:
+			extra = model.Step{Kind: "extension", Lit: []string{"http://example.org/ext/a", "http://example.org/ext/b", "http://none"}[rng.Intn(3)]}
+			if cur[0].Synth != nil {
+				continue
+			}
+		}
+		st := append(append([]model.Step{}, pre...), extra)
+		st = append(st, namesToSteps(names[cut:])...)
+		if extra.Kind == "extension" {
+			st = st[:len(pre)+1] // what follows an extension step is a different path
+		}
+		fsrc := model.RenderPath(tn, st)
+		want := model.Walk([]*model.Node{tree}, st)
+		rf := fx.Eval(env, fsrc, in, nil, nil)
+		env.Cover("filtered-compared")
+		c02Judge(env, tn, fsrc, tree, names, want, rf)
+	}
+	// `.value` of date/time primitives renders the FHIR text of the JSON value
+	if expect[0].IsPrim && expect[0].MD != nil && expect[0].JSON != nil && len(expect) == 1 {
+		switch string(expect[0].MD.Name()) {
+		case "Date", "DateTime", "Instant", "Time":
+			kind := string(expect[0].MD.Name())
+			if kind == "Instant" {
+				kind = "DateTime"
+			}
+			vs := fx.Eval(env, src+".value", in, nil, nil)
+			env.Cover("value-of-temporal")
+			js, _ := expect[0].JSON.(string)
+			jt, ok1 := model.ParseTemporal(kind, js)
+			it, single := vs.Single()
+			gt, ok2 := model.ParseTemporal(kind, it.T)
+			nonVX, _, _, _ := routeOfNames(tree, names)
+			if ok1 && nonVX == "" && (!single || it.K != "String" || !ok2 || !model.SameTemporal(jt, gt, 6)) {
+				if vs.IsPanic() {
+					env.Violatef(fx.PanicSig("C02", vs), "`%s.value` => %s", src, vs.Short())
+				} else {
+					env.Violatef("C02/value-of-temporal/"+string(expect[0].MD.Name()), "`%s.value` on %s: JSON %q, observed %s", src, tn, js, trunc(vs.Short(), 120))
+				}
+			}
+		}
 	}
 }
 
